@@ -286,8 +286,8 @@ def clauses(tier, seed):
 
 
 def _pyvc_clauses():
-  from contracts import fourier_contracts
-  return [c for c in fourier_contracts.clauses() if 'conjugate' in c.name]
+  from contracts import fourier_contracts, layout_contracts
+  return [c for c in fourier_contracts.clauses() if 'conjugate' in c.name] + [c for c in layout_contracts.clauses() if 'same degrees of freedom' in c.name]
 
 
 MANIFEST = {
